@@ -17,6 +17,7 @@ import (
 	"oras.land/oras-go/v2/content/file"
 	"oras.land/oras-go/v2/content/memory"
 	"oras.land/oras-go/v2/content/oci"
+	"oras.land/oras-go/v2/errdef"
 	"oras.land/oras-go/v2/internal/cas"
 	"oras.land/oras-go/v2/zsim/simos"
 	"oras.land/oras-go/v2/zsim/simrt"
@@ -463,6 +464,37 @@ func (p *pushProp) run(rc *RunCtx, pp *PushParams, info *RunInfo) *Verdict {
 		}
 		return nil
 	}
+	// what the store's own API shows at an instant: whatever Exists reports and Fetch
+	// returns must be bytes that hash to the descriptor's digest
+	checkAPI := func(when string) *Verdict {
+		if st == nil {
+			return nil
+		}
+		for i := range descs {
+			d := descs[i]
+			if d.Digest.Validate() != nil {
+				continue
+			}
+			ex, err := st.Exists(ctx, d)
+			if err != nil || !ex {
+				continue
+			}
+			rd, err := st.Fetch(ctx, d)
+			if err != nil {
+				continue
+			}
+			b, err := io.ReadAll(rd)
+			rd.Close()
+			if err != nil {
+				continue
+			}
+			if d.Digest.Algorithm().FromBytes(b) != d.Digest {
+				return violation("bad-content-visible", "", "%s: Exists is true for %s (size %d) and Fetch returns %d bytes that do not hash to it", when, d.Digest, d.Size, len(b))
+			}
+			info.Probes["content_seen_through_api_while_pushes_in_flight"]++
+		}
+		return nil
+	}
 	simos.Reset(simos.Config{Budget: 100000})
 	defer simos.Disable()
 	var proxy *cas.Proxy
@@ -528,6 +560,9 @@ func (p *pushProp) run(rc *RunCtx, pp *PushParams, info *RunInfo) *Verdict {
 					simrt.Yield("watch")
 					simrt.Observe(func() {
 						if v := checkBlobs(fmt.Sprintf("while pushes are in flight (watch %d)", k)); v != nil && watchViol == nil {
+							watchViol = v
+						}
+						if v := checkAPI(fmt.Sprintf("while pushes are in flight (watch %d)", k)); v != nil && watchViol == nil {
 							watchViol = v
 						}
 					})
@@ -637,6 +672,13 @@ func (p *pushProp) run(rc *RunCtx, pp *PushParams, info *RunInfo) *Verdict {
 			if !other {
 				return violation("good-push-refused", "", "%s: exact matching content was refused: %v", what, errs[i])
 			}
+		}
+		if errors.Is(errs[i], errdef.ErrAlreadyExists) && st != nil && d.Digest.Validate() == nil {
+			// nothing is ever deleted here: content reported as already existing is there afterwards
+			if ex, err := st.Exists(ctx, d); err == nil && !ex {
+				return violation("accepted-content-missing", "", "%s: Push answered already-exists but Exists is false after all pushes returned", what)
+			}
+			info.Probes["push_answered_already_exists"]++
 		}
 	}
 	// visibility: a descriptor is visible only if some pusher delivered valid content for it
